@@ -76,7 +76,7 @@ def block_benign():
     mx = _matrix("benign")
     rows = ["| probe | kind of refactoring | first run: false alarms (exit 1) | first run: undecided (exit 2) | now: false alarms | now: undecided |",
             "|-------|---------------------|------|------|------|------|"]
-    n = fa0 = fa = un0 = un = 0
+    stats = {}
     for d in sorted(glob.glob(os.path.join(here, "benign", "*"))):
         mp = os.path.join(d, "meta.json")
         if not os.path.exists(mp):
@@ -90,16 +90,20 @@ def block_benign():
             res = first
         sel = lambda r_, code: sorted(p for p, r in r_.items() if isinstance(r, dict) and r.get("rc") == code)
         a1, a2, f1, f2 = sel(first, 1), sel(first, 2), sel(res, 1), sel(res, 2)
-        n += 1
-        fa0 += bool(a1)
-        un0 += bool(a2)
-        fa += bool(f1)
-        un += bool(f2)
+        rnd = "round 1 (A/B/C)" if name[-1] in "ABC" else "round 2 (D, held out after wave 3; deep refactorings)"
+        st = stats.setdefault(rnd, dict(n=0, fa0=0, un0=0, fa=0, un=0))
+        st["n"] += 1
+        st["fa0"] += bool(a1)
+        st["un0"] += bool(a2)
+        st["fa"] += bool(f1)
+        st["un"] += bool(f2)
         rows.append("| %s | %s | %s | %s | %s | %s |" % (name, ((am.get("kind") or am.get("summary") or "")[:110]).replace("|", "\\|").replace("\n", " "),
                                                      ", ".join(a1) or "none", ", ".join(a2) or "none", ", ".join(f1) or "none", ", ".join(f2) or "none"))
     rows.append("")
-    rows.append("Behaviour-preserving probes: %d. First run: %d probes with a false alarm from some check, %d with an undecided check. "
-                "Now: %d with a false alarm, %d with an undecided check." % (n, fa0, un0, fa, un))
+    for rnd, st in sorted(stats.items()):
+        rows.append("%s: %d probes. First run: %d with a false alarm from some check, %d with an undecided check. "
+                    "Now: %d with a false alarm, %d with an undecided check." % (rnd, st["n"], st["fa0"], st["un0"], st["fa"], st["un"]))
+        rows.append("")
     return "\n".join(rows)
 
 
@@ -129,7 +133,7 @@ def block_seeded():
             res = mx["results"][name]
             now1 = sorted(p for p, r in res.items() if isinstance(r, dict) and r.get("rc") == 1)
             now2 = sorted(p for p, r in res.items() if isinstance(r, dict) and r.get("rc") == 2)
-        rnd = "round 1 (A/B)" if name[-1] in "AB" else "round 2 (C/D, held out)"
+        rnd = "round 1 (A/B)" if name[-1] in "AB" else "round 2 (C/D, held out)" if name[-1] in "CD" else "round 3 (E, held out after wave 3)"
         st = stats.setdefault(rnd, dict(n=0, first_any=0, first_own=0, now_any=0, now_own=0, now_own2=0))
         st["n"] += 1
         st["first_any"] += bool(first1)
